@@ -9,7 +9,7 @@ decision rules look at.  The rules below pin each forwarder: on every returning 
 calls are exactly the expected delegates with the expected arguments (own parameters / own fields, unchanged), the library
 calls are exactly the expected glue (so an added iterator adaptor is seen), and the result is the delegate's result.
 Forwarders are anchored like roles: impl type + signature, the name only breaks ties."""
-from .core import sym, tables as T, anchors as A
+from .core import sym, tables as T, anchors as A, callgraph
 from .core.anchors import where, AnchorLost
 from .roles import NS, CS, CH, FD, SW
 
@@ -203,6 +203,17 @@ def fd_glue(ctx, rep, roles, P, rule="RW.3"):
                 present = c[2] == "Some"
                 g = c[1]
                 okg = [sym.fmt(a) for a in g[2]] == ["&self.node_samples", "&chitchat_id"]
+                if not okg and f.get("reshaped"):
+                    # a free function over the sample map: it looks its last parameter up in its first, and every caller hands
+                    # it the failure detector's own sample map
+                    names = [dv.get("name") for dv in sorted(f.get("debug") or [], key=lambda d: d.get("arg") or 99) if dv.get("arg")]
+                    okg = len(names) == 2 and [sym.fmt(a) for a in g[2]] == ["&" + names[0], "&" + names[1]]
+                    for cs in callgraph.CallGraph(fx).callers_of(f["id"]):
+                        ce, crows = table(fx, fx.fns[fx.root_fn(cs.real_caller)])
+                        for crow in crows:
+                            for e in crow.calls():
+                                if e[1] == f["id"]:
+                                    okg = okg and fargs(e, ce, crow)[:1] == ["&self.node_samples"]
                 w.n += 1
                 rep.obligation(okg, w.key(f, "lookup"), "phi looks up %s" % [sym.fmt(a) for a in g[2]], where(f), sample="lookup: node_samples.get(id)")
         seen.add(present)
@@ -377,7 +388,18 @@ def digest_wrapper(ctx, rep, roles, P, rule="RW.8"):
     rep.rule(rule, "Chitchat::compute_digest forwards the exclusion set unchanged to ClusterState::compute_digest")
     fx = ctx.fx
     w = W(rep, P, rule, fx)
-    w.forward(roles.chitchat_compute_digest, [(roles.compute_digest, ["&self.cluster_state", "&scheduled_for_deletion_nodes"])], why="digest of the whole cluster state with the given exclusion set")
+    try:
+        fwd = roles.chitchat_compute_digest
+    except AnchorLost:
+        # no forwarder of the pinned shape (it was inlined, or reshaped to compute the exclusion set itself): nothing to check
+        # here — every rule that reasons about the digest follows the calls down to ClusterState::compute_digest and checks the
+        # exclusion set it is given there (R01.2)
+        rep.count("forwarder-absent-or-reshaped", 1)
+        rep.obligation(any(cs for cs in callgraph.CallGraph(fx).callers_of(roles.compute_digest["id"])), "%s/%s/digest-unused" % (P, rule),
+                       "ClusterState::compute_digest is never called", None, sample="ClusterState::compute_digest reached without the forwarder")
+        rep.instance(1)
+        return
+    w.forward(fwd, [(roles.compute_digest, ["&self.cluster_state", "&scheduled_for_deletion_nodes"])], why="digest of the whole cluster state with the given exclusion set")
     rep.floor("forwarder-obligations", w.n, 4)
     rep.instance(w.n)
 
